@@ -311,6 +311,7 @@ func (fe *FuncEnc) run(extra []*Clause) {
 	for _, h := range sortedKeys(fe.heapSorts) {
 		fe.hget(st, h)
 	}
+	fe.curState = st
 	declIn := func(kind string, name string, t types.Type, nonnil bool) Term {
 		k := fe.sorts.SortOf(t)
 		n := kind + "_" + mangle(name)
